@@ -47,11 +47,11 @@ def boundary_values(n, padded, block):
 
 
 class FileUnderTest:
-    def __init__(self, path, model, preload=False):
+    def __init__(self, path, model, preload=False, backend='file', share=None):
         self.path = path
-        self.spec = SpecFile(path)
-        self.vol = self.spec.volume()
-        self.f = CountingFile(path)
+        self.spec = share.spec if share is not None else SpecFile(path)
+        self.vol = share.vol if share is not None else self.spec.volume()
+        self.f = CountingFile(path) if backend == 'file' else CountingBlob(path)
         self.r = SgzReader(self.f, preload=preload)
         self.model = model
         self.hdr = model.hdr_tokens(self.spec.raw[:4096]) if model is not None else None
